@@ -18,6 +18,7 @@ import (
 
 	at "github.com/DanielSvub/anytype"
 
+	"verif/harness/heapx"
 	"verif/harness/jsonx"
 )
 
@@ -145,13 +146,58 @@ func guard(f func() error) (err error) {
 
 func rootKind(c *jsonx.CTree) byte { return c.Kind }
 
+// buildC: builders 0..3 are jsonx.Build's; builder 4 makes every NESTED container a user-derived struct (a type that embeds
+// List / Object and registers itself with Init, as in the library's README): to the serialiser it is a List / Object like
+// any other.
+func buildC(ct *jsonx.CTree, how int) any {
+	if how != 4 {
+		return jsonx.Build(ct, how)
+	}
+	c := jsonx.Build(ct, 2)
+	deriveChildren(c)
+	return c
+}
+
+func deriveChildren(x any) {
+	wrap := func(child any) any {
+		deriveChildren(child)
+		switch v := child.(type) {
+		case at.List:
+			d := &heapx.DL{List: v}
+			d.Init(d)
+			return d
+		case at.Object:
+			d := &heapx.DO{Object: v}
+			d.Init(d)
+			return d
+		}
+		return child
+	}
+	switch v := x.(type) {
+	case at.List:
+		for i := 0; i < v.Count(); i++ {
+			switch v.TypeOf(i) {
+			case at.TypeList, at.TypeObject:
+				v.Replace(i, wrap(v.Get(i)))
+			}
+		}
+	case at.Object:
+		for _, k := range v.Keys().StringSlice() {
+			switch v.TypeOf(k) {
+			case at.TypeList, at.TypeObject:
+				v.Set(k, wrap(v.Get(k)))
+			}
+		}
+	}
+}
+
 // ---- the three serialise-direction checks ----------------------------------------------------
 
 // C01: ParseX(String()) returns no error and an equal container; kinds preserved; twice stable.
 func checkRoundTrip(ct *jsonx.CTree, how int) (string, error) {
 	var text string
 	err := guard(func() error {
-		c := jsonx.Build(ct, how)
+		c := jsonx.Build(ct, how%4)
 		text = jsonx.Str(c)
 		p, err := jsonx.Parse(rootKind(ct), text)
 		if err != nil {
@@ -220,7 +266,7 @@ func checkRoundTrip(ct *jsonx.CTree, how int) (string, error) {
 func checkStdJSON(ct *jsonx.CTree, how int) (string, error) {
 	var text string
 	err := guard(func() error {
-		c := jsonx.Build(ct, how)
+		c := buildC(ct, how)
 		text = jsonx.Str(c)
 		if !utf8.ValidString(text) {
 			return fmt.Errorf("String() is not valid UTF-8")
@@ -339,7 +385,7 @@ func reorder(st, ct *jsonx.CTree) *jsonx.CTree {
 func checkFormat(ct *jsonx.CTree, how int, layout []jsonx.LayoutTok, full bool) (string, error) {
 	var text string
 	err := guard(func() error {
-		c := jsonx.Build(ct, how)
+		c := buildC(ct, how)
 		text = jsonx.Str(c)
 		ss, err := jsonx.StrictParse(text)
 		if err != nil {
@@ -748,7 +794,7 @@ func cmdSer(args []string) int {
 		for k := 0; k < *picks; k++ {
 			p := jsonx.NewPicker(*seed*7919+int64(i)*31+int64(k), int(*seed)+i+k*13)
 			ct := jsonx.Concretise(d.Tree, p)
-			how := (i + k) % 4
+			how := (i + k) % 5
 			var l []jsonx.LayoutTok
 			if *check == "format" {
 				l = lay
